@@ -156,6 +156,13 @@ func (state *RuntimeState) certGenHandler(w http.ResponseWriter, r *http.Request
 	if duration > maxDuration {
 		duration = maxDuration
 	}
+	if duration <= 0 {
+		// A non positive lifetime (requested, or left after clamping to the
+		// age of the credential) would wrap around in the SSH validity epoch
+		// arithmetic and yield a never expiring cert.
+		state.writeFailureResponse(w, r, http.StatusBadRequest, "Error parsing form (invalid duration)")
+		return
+	}
 
 	certType := "ssh"
 	if val, ok := r.Form["type"]; ok {
